@@ -71,6 +71,10 @@ func (s *SignedLatency) OnPing(pingReqID uint32) error {
 	// Compute metrics data and send to client
 	var min, max, mean, p95, last float32
 	var latencies []float32
+	// The latencies are added up in a float64: a float32 holds integers exactly
+	// up to 2^24 only (16.7 s in microseconds), beyond that every addition
+	// rounds and the mean can end up outside [min, max].
+	var sum float64
 
 	for id, v := range s.PingRequests {
 		latency := float32(v.End.Sub(v.Start).Microseconds())
@@ -81,12 +85,12 @@ func (s *SignedLatency) OnPing(pingReqID uint32) error {
 		if latency > max {
 			max = latency
 		}
-		mean += latency
+		sum += float64(latency)
 		if id == pingReqID {
 			last = latency
 		}
 	}
-	mean = float32(math.Round(float64(mean) / float64(len(s.PingRequests))))
+	mean = float32(math.Round(sum / float64(len(s.PingRequests))))
 
 	sort.Slice(latencies, func(i, j int) bool {
 		return latencies[i] < latencies[j]
